@@ -116,6 +116,9 @@ func vspecSigOver(dsse bool, sigText string, i int, data string) bool {
 
 func vspecSignedBytes(dsse bool, tag string) string {
 	canon := "{canon:" + tag + "}"
+	if !vStubOn("cjson") {
+		canon = tag // the caller passes the reference canonical JSON itself
+	}
 	if dsse {
 		return "DSSEv1 28 application/vnd.in-toto+json " + strconv.Itoa(len(canon)) + " " + canon
 	}
@@ -127,8 +130,10 @@ func vh_C04_sign(a []int)      { vhC04(a, false) }
 func vh_C04_sign_twin(a []int) { vhC04(a, true) }
 
 func vhC04(a []int, twin bool) {
-	dsse, nsign, alter := a[0] == 1, a[1], a[2] == 1
-	md := vhNewWrapper(dsse, Link{Type: "link", Name: "N0"})
+	dsse, nsign, alter := a[0] == 1, a[1], a[2] >= 1
+	orig := Link{Type: "link", Name: "N0", Materials: map[string]HashObj{"m": {"sha256": "ab"}}, Command: []string{"make"}}
+	origCanon := vspecCanonLink(orig)
+	md := vhNewWrapper(dsse, orig)
 	signedBy := [3]bool{}
 	for s := 0; s < nsign; s++ {
 		ki := vChoice("signer", 3)
@@ -153,19 +158,35 @@ func vhC04(a []int, twin bool) {
 			}
 		}
 		vAssert("C04.signature-carries-signer-key-id-and-is-over-the-standard-bytes",
-			idx >= 0 && signedBy[idx] && vspecSigOver(dsse, sg.Sig, idx, vspecSignedBytes(dsse, "link:N0")))
+			idx >= 0 && signedBy[idx] && vspecSigOver(dsse, sg.Sig, idx, vspecSignedBytes(dsse, origCanon)))
 	}
-	tag := "link:N0"
-	if alter {
-		tag = "link:N1"
+	switch a[2] {
+	case 1:
+		// a new payload value
 		if dsse {
 			// content of an envelope changes through SetPayload only
 			vAssert("C04.setpayload", md.(*Envelope).SetPayload(Link{Type: "link", Name: "N1"}) == nil)
 		} else {
 			md.(*Metablock).Signed = Link{Type: "link", Name: "N1"}
 		}
+	case 2:
+		// the payload handed out is modified in place (a map entry) and stored back
+		l := md.GetPayload().(Link)
+		l.Materials["m"]["sha256"] = "cd"
+		if dsse {
+			vAssert("C04.setpayload", md.(*Envelope).SetPayload(l) == nil)
+		} else {
+			md.(*Metablock).Signed = l
+		}
+	case 3:
+		l := md.GetPayload().(Link)
+		l.Command[0] = "evil"
+		if dsse {
+			vAssert("C04.setpayload", md.(*Envelope).SetPayload(l) == nil)
+		} else {
+			md.(*Metablock).Signed = l
+		}
 	}
-	_ = tag
 	for j := 0; j < 3; j++ {
 		err := md.VerifySignature(vhEdKey(j, false))
 		vObserve("verify", j, err == nil)
